@@ -15,6 +15,7 @@ import (
 	"verif/ev"
 	"verif/mc"
 	"verif/memnet"
+	"verif/racepass"
 	"verif/ref/chello"
 	"verif/ref/h2fpref"
 	"verif/ref/h2wire"
@@ -300,5 +301,65 @@ func TestCheck(t *testing.T) {
 			continue
 		}
 		rep.Violate(map[string]any{"kind": f.Sig}, map[string]any{"choices": f.Choices, "schedule": f.Trace}, "%s", f.What)
+	}
+}
+
+// ---- free-running race pass: many concurrent connections, real goroutines, no bubble ------------------------------------
+
+func TestRace(t *testing.T) {
+	rep := ev.New("C06", "model_checking")
+	defer rep.Write()
+	racepass.Parent(t, rep, "TestRaceWorkload", []string{"pkg/proxyserver", "pkg/metadata", "pkg/hack", "pkg/fingerprint", "pkg/reverseproxy", "fingerproxy."},
+		"unsynchronised sharing between connections in the proxy's own code while many clients connect at once")
+}
+
+func TestRaceWorkload(t *testing.T) {
+	if !racepass.IsChild() {
+		t.Skip("only run as a child of TestRace")
+	}
+	st := bubble.NewStack(bubble.StackOpts{Injectors: fingerproxy.DefaultHeaderInjectors(), HandshakeTimeout: 10 * time.Second})
+	hellos := []bubble.Hello{
+		{Name: "chrome", ID: &utls.HelloChrome_102, ALPN: []string{"h2", "http/1.1"}, SNI: "localhost"},
+		{Name: "firefox", ID: &utls.HelloFirefox_105, ALPN: []string{"http/1.1"}, SNI: "localhost"},
+		{Name: "safari", ID: &utls.HelloSafari_16_0, ALPN: []string{"h2", "http/1.1"}, SNI: "localhost"},
+		{Name: "go", SNI: "example.com", ALPN: []string{"h2"}},
+	}
+	waitFor := func(cond func() bool) {
+		for i := 0; i < 2000 && !cond(); i++ {
+			time.Sleep(time.Millisecond)
+		}
+	}
+	rounds := 60
+	if ev.Thorough() {
+		rounds = 300
+	}
+	for round := 0; round < rounds; round++ {
+		var cls []*bubble.Client
+		for i := 0; i < 8; i++ {
+			cls = append(cls, st.Connect(fmt.Sprintf("r%dc%d", round, i), memnet.TCPAddr("198.51.100.7", 44444), hellos[(round+i)%len(hellos)]))
+		}
+		for i, cl := range cls {
+			cl := cl
+			waitFor(func() bool { d, _ := cl.Handshake(); return d })
+			if d, err := cl.Handshake(); !d || err != nil {
+				continue
+			}
+			path := fmt.Sprintf("/race-%d-%d", round, i)
+			if cl.Proto == "h2" {
+				cl.StartH2(h2wire.Setting{ID: 3, Val: uint32(100 + i)})
+				cl.SendH2(1, bubble.Req{Path: path, Host: "localhost"})
+			} else {
+				cl.SendH1(bubble.Req{Path: path, Host: "localhost"})
+			}
+		}
+		waitFor(func() bool { return st.Backend.Count() >= 8*(round+1) })
+		for _, cl := range cls {
+			cl.Close()
+		}
+	}
+	st.Shutdown()
+	t.Logf("race workload: backend saw %d requests; counter %v", st.Backend.Count(), st.Counter())
+	if st.Backend.Count() < 8*rounds-8 {
+		t.Errorf("race workload did not run as intended: only %d of %d requests were served", st.Backend.Count(), 8*rounds)
 	}
 }
